@@ -472,4 +472,31 @@ PROPS = {
         "assumptions": [],
         "gen_facts": ["Gen.Frame.refLiterals / configLiterals / namespaces = the string literals the source builds ref names, refspecs, configuration keys and its directory from"],
     },
+    "C18": {
+        "level_text": "PARTIAL (the Go scheduler and memory model are outside the model; thread schedules are sampled, not enumerated). Proved "
+                      "for any number of workers and every schedule: when each edit of a loaded entity is an append-and-commit inside that "
+                      "entity's lock on a single loaded instance, the stored history holds exactly the acknowledged operations, each once, "
+                      "and only ever grows (locked_no_loss, runLocked_perm, runLocked_extends); with a second look under the write lock, "
+                      "every interleaving of goroutines resolving the same unloaded entity hands all of them one instance "
+                      "(resolve_single_instance), while without it two instances arise (resolve_double_load_pinned) and two instances lose "
+                      "an acknowledged edit (two_instances_lose_edit). Regenerated on every run: every statement handing a loaded entity to "
+                      "a mutating function sits inside the entity's lock (gen_entity_calls_locked) and Resolve looks again "
+                      "(gen_resolve_rechecks). Real goroutines on one cache are run against this.",
+        "level_note": "Trusted: Lean kernel, extractor, harness. The critical sections are modelled as atomic; that sync.RWMutex makes them so, "
+                      "and that nothing outside them touches the entity, is what the extractor and the run check from outside. Eviction of an "
+                      "instance a goroutine still holds is a known finding.",
+        "required_theorems": ["locked_no_loss", "runLocked_perm", "runLocked_extends", "two_instances_lose_edit", "resolve_single_instance",
+                              "resolve_double_load_pinned", "gen_entity_calls_locked", "gen_resolve_rechecks"],
+        "slices": ["C18"],
+        "timeout": {"quick": 2400, "thorough": 7200},
+        "rule": "one go-git repository and one RepoCache reopened so that nothing is loaded; 2..16 goroutines x GOMAXPROCS 1..16 x cache size "
+                "(unbounded, or 2-3 to force eviction) running seeded mixes of New, Resolve + AddComment/ChangeLabels/SetTitle + "
+                "CommitAsNeeded on three shared bugs and private ones, Query, ResolveExcerpt; a 25 s watchdog; afterwards every "
+                "acknowledged operation must be stored exactly once in a valid history, the stored acknowledged operations go to the "
+                "model (interleaving of the workers' program orders), and the cache left on disk is compared with a rebuilt one; "
+                "non-trivial/distinct = distinct (configuration, bug, stored order)",
+        "trusted_base": [KERNEL, TIE, "model: GitBugModel.Conc (runLocked, rstep, isInterleaving)", "Go's sync.RWMutex and scheduler"],
+        "assumptions": ["goroutines do not keep an instance across its eviction (the known finding covers the case where they do)"],
+        "gen_facts": ["Gen.Locks.entityCalls = statements of cache/bug_cache.go and cache/cached.go that hand the entity to a mutating function, and whether they sit between mu.Lock and mu.Unlock; resolveRechecks"],
+    },
 }
